@@ -472,6 +472,19 @@ theorem marker_coherent_algebra_domain {C : String → Prop} {E : Env}
     fun h => ⟨good_coherent_of_dom r (g.cnf stk a r ha h), g.cnf stk a r ha h⟩,
     fun h => ⟨good_coherent_of_dom r (g.dnf stk a r ha h), g.dnf stk a r ha h⟩⟩
 
+/-- **`only`, `exclude`, `without_extras` keep a marker over the domain coherent (and in the domain) — hypothesis-free** -/
+theorem marker_coherent_projections_domain {C : String → Prop} {E : Env}
+    (hC : ∀ u v, C u → C v → Generic.strIn u v = true ∨ Generic.strIn v u = true)
+    {ex : List String} (hX : E.extras = some ex) {X Y Z : Nat} (hE : EnvPy E X Y Z)
+    (a r : M) (ha : M.Good (CohDomLeaf C E) a) :
+    (∀ names, a.only names = .ok r → mCoherent r ∧ M.Good (CohDomLeaf C E) r) ∧
+    (∀ name, a.exclude name = .ok r → mCoherent r ∧ M.Good (CohDomLeaf C E) r) ∧
+    (a.withoutExtras = .ok r → mCoherent r ∧ M.Good (CohDomLeaf C E) r) := by
+  have MC := mergeClosed_cohDomLeaf hC hX hE
+  exact ⟨fun names h => ⟨good_coherent_of_dom r (only_goodG MC names a r ha h), only_goodG MC names a r ha h⟩,
+    fun name h => ⟨good_coherent_of_dom r (exclude_goodG MC name a r ha h), exclude_goodG MC name a r ha h⟩,
+    fun h => ⟨good_coherent_of_dom r (exclude_goodG MC "extra" a r ha h), exclude_goodG MC "extra" a r ha h⟩⟩
+
 /-- every leaf of the domain satisfies the STRONG form of coherence: the constructor applied to the leaf's own
 `(name, operator, value, operand order)` returns the leaf -/
 theorem marker_domain_leaf_rebuilt {C : String → Prop} {E : Env} (s : Single) (h : FullQLP C E (.single s)) :
